@@ -25,7 +25,7 @@ import (
 )
 
 func main() {
-	hx.Main(map[string]func(*hx.Ctx){"c13": runC13, "c14": runC14, "c15": runC15})
+	hx.Main(map[string]func(*hx.Ctx){"c08": runC08, "c13": runC13, "c14": runC14, "c15": runC15})
 }
 
 type sys struct {
@@ -171,6 +171,141 @@ func checkOrder(pubs []*packet.Publish) (bool, string) {
 		last[key] = n
 	}
 	return true, fmt.Sprintf("%d streams", len(last))
+}
+
+// ------------------------------------------------------------------- C08
+
+// a persistent subscriber that withholds acknowledgements, is cut, reconnects (repeatedly, also
+// during the resend phase), while messages keep being published — also while it is offline
+func runC08(c *hx.Ctx) {
+	o := &out{c: c}
+	rounds := 8
+	if c.Thorough() {
+		rounds = 60
+	}
+	for r := 0; r < rounds; r++ {
+		w := 1 + c.Rng.Intn(4)
+		cuts := 1 + c.Rng.Intn(3)
+		n := o.scn(fmt.Sprintf("c08 round=%d window=%d cuts=%d", r, w, cuts))
+		s := startSys(w, 1000)
+		sub, err := dialPeer("sub", s.port, true)
+		feeder, _ := dialPeer("feed", s.port, true)
+		if err != nil || feeder == nil || feeder.connect("feed", true, nil) == nil {
+			o.direct("setup", n, false, "could not connect")
+			s.stop()
+			continue
+		}
+		st := newSubState()
+		sub.state = st
+		ack := sub.connect("sub", false, nil)
+		o.direct("session_present", n, ack != nil && !ack.SessionPresent, "first connect of a persistent session: session-present must be false")
+		sub.subscribe(1, "q1/#", 1)
+		sub.subscribe(2, "q2/#", 2)
+		sent := 0
+		fid := 0
+		send := func(k int) {
+			for i := 0; i < k; i++ {
+				q := 1 + sent%2
+				fid++
+				feeder.send(&packet.Publish{ID: packet.ID(fid), Message: packet.Message{Topic: fmt.Sprintf("q%d/x", q), Payload: payload(0, q, sent), QOS: packet.QOS(q)}})
+				sent++
+			}
+			// wait until the broker has acknowledged them all (accepted responsibility)
+			deadline := time.Now().Add(3 * time.Second)
+			for ackCount(feeder) < sent && time.Now().Before(deadline) {
+				time.Sleep(500 * time.Microsecond)
+			}
+		}
+		var all []*packet.Publish
+		for cut := 0; cut < cuts; cut++ {
+			sub.mu.Lock()
+			sub.hold = 1 + c.Rng.Intn(w+2) // leave 1..window+2 deliveries unacknowledged
+			sub.mu.Unlock()
+			send(w + 2)
+			time.Sleep(10 * time.Millisecond)
+			all = append(all, sub.received()...)
+			c.Emit("info scn=%d cut=%d sent=%d received_so_far=%d hold_left=%d", n, cut, sent, len(all), sub.hold)
+			sub.close()
+			sub.isClosed(time.Second)
+			// published while the subscriber is offline: queued, delivered after reconnect
+			send(2)
+			np, _ := dialPeer(fmt.Sprintf("sub-r%d", cut), s.port, true)
+			np.state = st
+			// keep withholding acknowledgements of the retransmissions for a while, so that new messages are
+			// delivered while older ones are still unacknowledged
+			np.hold = c.Rng.Intn(w + 1)
+			if cut%2 == 1 {
+				// cut again in the middle of the resend phase, without acknowledging anything
+				np.mu.Lock()
+				np.autoAck = false
+				np.mu.Unlock()
+				a2 := np.connect("sub", false, nil)
+				o.direct("session_present", n, a2 != nil && a2.SessionPresent, "resumed persistent session: session-present must be true")
+				time.Sleep(5 * time.Millisecond)
+				all = append(all, np.received()...)
+				np.close()
+				np.isClosed(time.Second)
+				np, _ = dialPeer(fmt.Sprintf("sub-r%d-b", cut), s.port, true)
+				np.state = st
+			}
+			a3 := np.connect("sub", false, nil)
+			o.direct("session_present", n, a3 != nil && a3.SessionPresent, "resumed persistent session: session-present must be true")
+			sub = np
+		}
+		sub.idle(30*time.Millisecond, 3*time.Second)
+		all = append(all, sub.received()...)
+		// a last unclean reconnect that acknowledges everything it gets: whatever is still recorded must come again
+		sub.close()
+		sub.isClosed(time.Second)
+		fin, _ := dialPeer("sub-final", s.port, true)
+		fin.state = st
+		fin.connect("sub", false, nil)
+		fin.idle(30*time.Millisecond, 3*time.Second)
+		all = append(all, fin.received()...)
+		sub = fin
+		// every accepted message was delivered AND could be acknowledged by the subscriber (a message it never
+		// acknowledged must keep coming back); QoS 2 never twice as a new (non-dup) delivery
+		fresh2 := map[int]int{}
+		for _, p := range all {
+			if _, q, i, ok := parsePayload(p.Message.Payload); ok {
+				if q == 2 && !p.Dup {
+					fresh2[i]++
+				}
+			}
+		}
+		var missing, twice []int
+		st.mu.Lock()
+		for i := 0; i < sent; i++ {
+			if !st.acked[i] {
+				missing = append(missing, i)
+			}
+			if fresh2[i] > 1 {
+				twice = append(twice, i)
+			}
+		}
+		st.mu.Unlock()
+		o.direct("nothing_lost", n, len(missing) == 0, fmt.Sprintf("published %d QoS>0 messages to a persistent subscriber; never delivered-and-acknowledged although the subscriber acknowledges everything in the end: %v", sent, missing))
+		o.direct("qos2_not_twice_new", n, len(twice) == 0, fmt.Sprintf("QoS 2 messages offered twice as a new delivery: %v", twice))
+		// a clean-session connect discards everything: no session-present, nothing delivered, subscriptions gone
+		sub.mu.Lock()
+		sub.hold = 1000
+		sub.mu.Unlock()
+		send(2)
+		time.Sleep(5 * time.Millisecond)
+		sub.close()
+		sub.isClosed(time.Second)
+		cl, _ := dialPeer("sub-clean", s.port, true)
+		a4 := cl.connect("sub", true, nil)
+		send(2)
+		cl.idle(20*time.Millisecond, time.Second)
+		o.direct("clean_discards", n, a4 != nil && !a4.SessionPresent && len(cl.received()) == 0,
+			fmt.Sprintf("clean connect: session-present=%v, %d publishes delivered (0 expected)", a4 != nil && a4.SessionPresent, len(cl.received())))
+		cl.close()
+		feeder.close()
+		s.stop()
+		o.syslog(n, s)
+		c.Stat("scenarios", 1)
+	}
 }
 
 // ------------------------------------------------------------------- C15
